@@ -134,6 +134,75 @@ class SymDecimal:
         return SymDecimal(a * b, self.scale + o.scale)
     __rmul__ = __mul__
 
+    @staticmethod
+    def _truncdiv(a, b):
+        """integer part of a / b truncated toward zero (what Decimal's // gives), a and b z3 Int or bit-vector terms"""
+        if z3.is_bv(a) or z3.is_bv(b):
+            return a / b                                    # bvsdiv truncates toward zero
+        b = z3.simplify(b)
+        if z3.is_int_value(b):
+            # a numeral divisor keeps the query linear (a symbolic one would make z3 treat div as uninterpreted)
+            bv = b.as_long()
+            q = z3.If(a >= 0, a, -a) / z3.IntVal(abs(bv))
+            return z3.If((a >= 0) == z3.BoolVal(bv >= 0), q, -q)
+        raise E.Unsupported('Decimal division by a symbolic divisor')
+
+    def _divide(self, o, swap=False):
+        o2 = SymDecimal.of(o)
+        if o2 is not None and (z3.is_bv(self.num) if not isinstance(self.num, int) else False or (not isinstance(o2.num, int) and z3.is_bv(o2.num))):
+            # bit-vector integers (IEEE harnesses): aligning the scales of e.g. Decimal(0.2) (54 decimals) overflows 64 bits, so the
+            # division is done on 256-bit sign-extended operands and the quotient truncated back (it fits: |q| <= |a| * 10**scale)
+            W = 256
+            s = max(self.scale, o2.scale)
+            if 10 ** s >= 2 ** (W - 66):
+                raise E.Unsupported('Decimal division at scale %d' % s)
+
+            def wide(x, sc):
+                if isinstance(x, int):
+                    return z3.BitVecVal(x * 10 ** (s - sc), W)
+                return z3.SignExt(W - x.size(), x) * z3.BitVecVal(10 ** (s - sc), W)
+            a, b = wide(self.num, self.scale), wide(o2.num, o2.scale)
+            if swap:
+                a, b = b, a
+            if bool(mkbool(z3.simplify(b == 0))):
+                raise _d.DivisionByZero('division by zero')
+            return ('wide', a, b, s)
+        al = self._align(o)
+        if al is None:
+            return None
+        a, b = (al[1], al[0]) if swap else (al[0], al[1])
+        a, b = SymDecimal._lift(a, b), SymDecimal._lift(b, a)
+        zero = mkbool(z3.simplify(b == 0))
+        if bool(zero):
+            raise _d.DivisionByZero('division by zero')
+        return a, b
+
+    def __floordiv__(self, o):
+        ab = self._divide(o)
+        if ab is None:
+            return NotImplemented
+        if ab[0] == 'wide':
+            return SymDecimal(z3.Extract(63, 0, ab[1] / ab[2]), 0)
+        return SymDecimal(SymDecimal._truncdiv(ab[0], ab[1]), 0)
+
+    def __rfloordiv__(self, o):
+        ab = self._divide(o, swap=True)
+        if ab is None:
+            return NotImplemented
+        if ab[0] == 'wide':
+            return SymDecimal(z3.Extract(63, 0, ab[1] / ab[2]), 0)
+        return SymDecimal(SymDecimal._truncdiv(ab[0], ab[1]), 0)
+
+    def __mod__(self, o):
+        ab = self._divide(o)
+        if ab is None:
+            return NotImplemented
+        if ab[0] == 'wide':
+            raise E.Unsupported('Decimal % on bit-vector integers')
+        al = self._align(o)
+        q = SymDecimal._truncdiv(ab[0], ab[1])
+        return SymDecimal(ab[0] - q * ab[1], al[2])             # the remainder has the sign of the dividend, as in decimal
+
     def _sx_float(self):
         """float(Decimal) is correctly rounded"""
         eng = E.cur()
